@@ -235,6 +235,11 @@ def part_c(chk, plain, quick):
             # ... unless all models are forced on
             cases.append({"kind": "forced-all", "requires": [reqA, reqB], "events": sorted(en) + [x],
                           "expect_ok": True, "args": ["-a"], "expect_enabled": set(MODELS.values()) | {"O"}})
+    # forcing all models on (-a) must not switch version gating off
+    for c in list(cases):
+        if c["kind"] in ("version", "malformed", "mixed-requirements"):
+            d = dict(c); d["args"] = ["-a"]; d["kind"] = c["kind"] + "+a"
+            cases.append(d)
     for i, c in enumerate(cases):
         c["i"] = i
     n = 0
@@ -248,7 +253,7 @@ def part_c(chk, plain, quick):
             chk.report("emu-crash:%s" % c["kind"], "emulator crashed (sig %s rc %s)" % (r.sig, r.rc), r.brief()); continue
         acc = emu.accepted(r)
         if acc != c["expect_ok"]:
-            if c["kind"] in ("version", "malformed", "mixed-requirements", "mixed-compatible"):
+            if c["kind"].split("+")[0] in ("version", "malformed", "mixed-requirements", "mixed-compatible"):
                 key = "emu-model-version:%s" % ("accepts-incompatible" if acc else "rejects-compatible")
                 what = "model %s: required %s, emulator has %s -> %s" % (c["model"], c["want"], c["have"],
                                                                         "accepted" if acc else "rejected: " + emu.last_error(r))
